@@ -754,6 +754,35 @@ impl<'a> Sim<'a> {
                 }
                 Ok(())
             }
+            Op::CloneCond { src, dst } => {
+                if *src >= MAX_ENGINES || *dst >= MAX_ENGINES || src == dst || self.engines[*src].is_none() || self.engines[*dst].is_none() {
+                    self.stats.noop_ops += 1;
+                    return Ok(());
+                }
+                if self.engines[*dst].as_ref().unwrap().eng.is_shared() || self.engines[*src].as_ref().unwrap().vs_id != self.engines[*dst].as_ref().unwrap().vs_id {
+                    self.stats.noop_ops += 1;
+                    return Ok(());
+                }
+                let mut d = self.engines[*dst].take().unwrap();
+                let s = self.engines[*src].as_ref().unwrap();
+                self.stats.api_calls += 1;
+                let r = {
+                    let target = d.eng.owned_mut().unwrap();
+                    let source: &Engine = &s.eng;
+                    guarded(|| target.condition.clone_from(&source.condition))
+                };
+                if let (Some(t), Some(st)) = (d.twin.as_mut(), s.twin.as_ref()) {
+                    let _ = guarded(|| t.condition.clone_from(&st.condition));
+                }
+                d.model = s.model.clone();
+                self.engines[*dst] = Some(d);
+                self.stats.probe("condition_clone_from");
+                self.note(0x2c + (*src * 8 + *dst) as u64);
+                if let Err(p) = r {
+                    return Err(self.viol("C03.clone", "condition-clone-from-panicked", format!("Condition::clone_from panicked: {}", p.msg)));
+                }
+                Ok(())
+            }
             Op::Reload { e, voices } => {
                 if voices.is_empty() || self.engines.get(*e).and_then(|x| x.as_ref()).map(|x| x.eng.is_shared()).unwrap_or(true) {
                     self.stats.noop_ops += 1;
@@ -963,18 +992,35 @@ impl<'a> Sim<'a> {
                 }
                 Ok(())
             }
-            Op::VsNew { voices, mutate } => {
+            Op::VsNew { voices, mutate, mutate2 } => {
                 let mut arcs: Vec<Arc<Voice>> = Vec::new();
                 for v in voices {
                     arcs.push(self.env.voice(v).map_err(|e| Stop::Harness(HarnessError(e)))?.0);
                 }
                 let mut expect = if voices.is_empty() { "empty" } else { "ok" };
-                if let Some((pos, field, variant)) = mutate {
-                    if *pos < arcs.len() && arcs.len() >= 2 {
-                        let mut v: Voice = (*arcs[*pos]).clone();
-                        if mutate_meta(&mut v, *field, *variant) {
-                            arcs[*pos] = Arc::new(v);
-                            expect = "metadata";
+                let mut applied = 0;
+                for mm in [mutate, mutate2] {
+                    if let Some((pos, field, variant)) = mm {
+                        if *pos < arcs.len() && arcs.len() >= 2 {
+                            let mut v: Voice = (*arcs[*pos]).clone();
+                            if mutate_meta(&mut v, *field, *variant) {
+                                arcs[*pos] = Arc::new(v);
+                                applied += 1;
+                            }
+                        }
+                    }
+                }
+                if applied > 0 {
+                    // the specification: any voice whose global or per-stream metadata differ from the
+                    // first voice's makes the list uncombinable (two mutations may cancel each other)
+                    let first = &arcs[0];
+                    let differs = arcs[1..].iter().any(|v| {
+                        v.metadata != first.metadata || v.stream_models.len() != first.stream_models.len() || v.stream_models.iter().zip(first.stream_models.iter()).any(|(a, b)| a.metadata != b.metadata)
+                    });
+                    if differs {
+                        expect = "metadata";
+                        if applied == 2 {
+                            self.stats.probe("vsnew_two_fields_mutated");
                         }
                     }
                 }
